@@ -746,12 +746,120 @@ fn explore_kind<W: Sink>(out: &mut Outcome, tokens: &[Op], all_fix: &mut bool) {
     }
 }
 
+// ------------------------------------------------------------------ real stdio
+/// The print macros, `anstream::stdout()/stderr()` and the `lock()`ed variants over the process's
+/// real stdout/stderr, redirected to files (vchecks::stdio_sys).  Single-threaded.
+fn stdio_part(out: &mut Outcome) -> u64 {
+    use vchecks::stdio_sys::capture_stdio;
+    let strip = |b: &[u8]| StripModel::default().expected_exact(b);
+    let mut cases = 0u64;
+    let mut report = |out: &mut Outcome, name: &str, env: &str, what: &str, got: &[u8], exp: &[u8]| {
+        if got != exp && out.findings.len() < 300 {
+            out.findings.push(Finding {
+                system: format!("real stdio/{name}"),
+                clause: "stdio-output-differs".into(),
+                case: vec![env.to_string(), what.to_string()],
+                message: format!("{what} with {env}: the redirected stream received {} but {} was expected", show(got), show(exp)),
+                replay: json!({"kind":"stdio"}),
+            });
+        }
+    };
+    for (env, force) in [("a cleared environment", false), ("CLICOLOR_FORCE=1", true), ("NO_COLOR=1 CLICOLOR_FORCE=1", false)] {
+        clear_env();
+        match env {
+            "CLICOLOR_FORCE=1" => std::env::set_var("CLICOLOR_FORCE", "1"),
+            "NO_COLOR=1 CLICOLOR_FORCE=1" => {
+                std::env::set_var("NO_COLOR", "1");
+                std::env::set_var("CLICOLOR_FORCE", "1");
+            }
+            _ => {}
+        }
+        let conv = |b: &[u8]| if force { b.to_vec() } else { strip(b) };
+        // macros
+        let r = capture_stdio(|| {
+            anstream::print!("{}{}", "a\x1b[1m", "b\x1b[0m");
+            anstream::println!("c\x1b[3{}md", 1);
+            anstream::println!();
+            anstream::print!("lit\x1b[4m");
+            anstream::eprint!("{}{}", "e\x1b[1m", "f");
+            anstream::eprintln!("g\x1b[0mh");
+            anstream::eprintln!();
+        });
+        cases += 7;
+        match r {
+            Ok((_, cap)) => {
+                report(out, "print!/println!", env, "print!, println!, println!(), print!(literal)", &cap.out, &conv(b"a\x1b[1mb\x1b[0mc\x1b[31md\n\nlit\x1b[4m"));
+                report(out, "eprint!/eprintln!", env, "eprint!, eprintln!, eprintln!()", &cap.err, &conv(b"e\x1b[1mfg\x1b[0mh\n\n"));
+            }
+            Err(m) => out.findings.push(Finding { system: "real stdio/macros".into(), clause: "panic".into(), case: vec![env.to_string()], message: m, replay: json!({"kind":"stdio"}) }),
+        }
+        // anstream::stdout()/stderr() and their locked forms: the strip state survives lock()
+        let r = capture_stdio(|| {
+            let mut s = anstream::stdout();
+            s.write_all(b"x\x1b[3").unwrap();
+            let mut l = s.lock();
+            l.write_all(b"1my\n").unwrap();
+            write!(l, "{}", "\x1b[0mz\n").unwrap();
+            drop(l);
+            let mut s = anstream::stderr();
+            write!(s, "{}", "p\x1b]0;ti").unwrap();
+            let mut l = s.lock();
+            l.write_all(b"tle\x07q\n").unwrap();
+            drop(l);
+        });
+        cases += 2;
+        match r {
+            Ok((_, cap)) => {
+                report(out, "stdout().lock()", env, "write_all, lock(), write_all, write!", &cap.out, &conv(b"x\x1b[31my\n\x1b[0mz\n"));
+                report(out, "stderr().lock()", env, "write!, lock(), write_all", &cap.err, &conv(b"p\x1b]0;title\x07q\n"));
+            }
+            Err(m) => out.findings.push(Finding { system: "real stdio/lock".into(), clause: "panic".into(), case: vec![env.to_string()], message: m, replay: json!({"kind":"stdio"}) }),
+        }
+    }
+    clear_env();
+    // explicit constructors over the real handles, with lock()
+    let r = capture_stdio(|| {
+        let mut s = AutoStream::never(std::io::stdout());
+        s.write_all(b"n\x1b[3").unwrap();
+        let mut l = s.lock();
+        l.write_all(b"1mo\n").unwrap();
+        drop(l);
+        let mut s = AutoStream::always_ansi(std::io::stdout());
+        s.write_all(b"A\x1b[3").unwrap();
+        let mut l = s.lock();
+        l.write_all(b"1mB\n").unwrap();
+        drop(l);
+        let mut s = StripStream::new(std::io::stderr());
+        s.write_all(b"s\x1b[3").unwrap();
+        let mut l = s.lock();
+        write!(l, "{}", "1mt\n").unwrap();
+        drop(l);
+        let mut s = AutoStream::never(std::io::stderr());
+        s.write_all(b"u\x1b[3").unwrap();
+        let mut l = s.lock();
+        l.write_all(b"1mv\n").unwrap();
+        drop(l);
+    });
+    cases += 4;
+    match r {
+        Ok((_, cap)) => {
+            report(out, "AutoStream::{never,always_ansi}(stdout()).lock()", "a cleared environment", "write_all, lock(), write_all", &cap.out, b"no\nA\x1b[31mB\n");
+            report(out, "StripStream::new(stderr()).lock(), AutoStream::never(stderr()).lock()", "a cleared environment", "write_all, lock(), write", &cap.err, b"st\nuv\n");
+        }
+        Err(m) => out.findings.push(Finding { system: "real stdio/constructors".into(), clause: "panic".into(), case: vec![], message: m, replay: json!({"kind":"stdio"}) }),
+    }
+    clear_env();
+    cases
+}
+
 fn main_check(ctx: &Ctx) -> Outcome {
     let mut out = Outcome::default();
     let quick = ctx.quick();
     clear_env();
     // panics inside the explored calls are caught and reported as findings; keep stderr quiet
     std::panic::set_hook(Box::new(|_| {}));
+    let stdio_cases = stdio_part(&mut out);
+    out.push_part(json!({"system":"print macros, stdout()/stderr(), lock()ed variants over the real stdio redirected to files","cases":stdio_cases,"environments":3}));
     let tokens = op_tokens(quick);
     out.set("chunk_tokens", json!(chunk_tokens(false).iter().map(|c| hex(c)).collect::<Vec<_>>()));
     out.set("operation_tokens", json!(tokens.len()));
@@ -914,6 +1022,14 @@ fn replay(v: &serde_json::Value) -> Result<(), String> {
             r
         }
         "case" => vchecks::fault_sys::replay_case(v),
+        "stdio" => {
+            let mut o = Outcome::default();
+            stdio_part(&mut o);
+            match o.findings.first() {
+                Some(f) => Err(f.message.clone()),
+                None => Ok(()),
+            }
+        }
         k => Err(format!("unknown replay kind {k}")),
     }
 }
